@@ -208,6 +208,8 @@ def build():
     add("hamming_neighbors", "pure", lambda: dict(x="CAAF", pos=[1, 2]), lambda a: list(prs.hamming_neighbors(a["x"], variable_positions=a["pos"])))
     add("next_nearest_neighbors", "pure", lambda: dict(x="CAF"), lambda a: prs.next_nearest_neighbors(a["x"], lambda y: prs.hamming_neighbors(y, "ACF"), maxdistance=2))
     add("find_neighbor_pairs", "pure", S, lambda a: sorted(prs.find_neighbor_pairs(a["seqs"])))
+    add("find_neighbor_pairs/set", "pure", lambda: dict(seqs=set(SEQS)), lambda a: sorted(tuple(sorted(p)) for p in prs.find_neighbor_pairs(a["seqs"])))
+    add("calculate_neighbor_numbers/set_reference", "pure", lambda: dict(seqs=list(SEQS), ref=set(SEQS)), lambda a: prs.calculate_neighbor_numbers(a["seqs"], reference=a["ref"]))
     add("find_neighbor_pairs_index", "pure", lambda: dict(seqs=sorted(set(SEQS))), lambda a: sorted(prs.find_neighbor_pairs_index(a["seqs"])))
     add("calculate_neighbor_numbers", "pure", S, lambda a: prs.calculate_neighbor_numbers(a["seqs"]))
     add("isdist1", "pure", lambda: dict(x="CASSLGQAYEQYF", ref=set(SEQS[1:])), lambda a: prs.isdist1(a["x"], a["ref"]))
